@@ -130,7 +130,8 @@ class AlarmTime:
         if self._snooze_until is not None and self._snooze_until > acknowledged:
             return True
         trigger = self.trigger
-        if trigger.tzinfo is None:
+        if getattr(trigger, "tzinfo", None) is None:
+            # dates and datetimes without a timezone are floating
             raise LocalTimezoneMissing(
                 "A local timezone is required to check if the alarm is still active. "
                 "Use Alarms.set_local_timezone()."
@@ -143,8 +144,15 @@ class AlarmTime:
 
         If the alarm has been snoozed, this can differ from the TRIGGER property.
         """
-        if self._snooze_until is not None and self._snooze_until > self._trigger:
-            return self._snooze_until
+        if self._snooze_until is not None:
+            if getattr(self._trigger, "tzinfo", None) is None:
+                # dates and datetimes without a timezone are floating
+                raise LocalTimezoneMissing(
+                    "A local timezone is required to compare the trigger with the snooze time. "
+                    "Use Alarms.set_local_timezone()."
+                )
+            if self._snooze_until > self._trigger:
+                return self._snooze_until
         return self._trigger
 
 
@@ -335,7 +343,7 @@ class Alarms:
     def _alarm_time(self, alarm: Alarm, trigger:date):
         """Create an alarm time with the additional attributes."""
         if getattr(trigger, "tzinfo", None) is None and self._local_tzinfo is not None:
-            trigger = normalize_pytz(trigger.replace(tzinfo=self._local_tzinfo))
+            trigger = normalize_pytz(to_datetime(trigger).replace(tzinfo=self._local_tzinfo))
         return AlarmTime(alarm, trigger, self._last_ack, self._snooze_until, self._parent)
 
     def _get_absolute_alarm_times(self) -> list[AlarmTime]:
